@@ -81,4 +81,49 @@ void h_lemma(void) {
     out.append(Job('lemma/roundtrip', TUS, list(DEC), lemma, 'h_lemma', contracts=contracts, nobody=list(DEC),
                    replace=list(DEC), spec=['moveenc.h'], timeout=300,
                    note='round trip as a lemma over the contracts (bodies not visible in this query)'))
+    # ---- UCI text: Position::uci / Position::parse_uci under contract, std::string bound to verif_string
+    PT = tu('position.cpp', 'types.cpp')
+    UCI_TXT = '(__CPROVER_return_value.n == (size_t)spec_uci_len(self->_current_side, move)' + ''.join(
+        ' && __CPROVER_return_value.s[%d] == spec_uci_char(self->_current_side, move, %d)' % (i, i) for i in range(5)) + ')'
+    c_uci = ('__CPROVER_requires(spec_uci_movable(self->_board, self->_current_side, move))\n__CPROVER_assigns()\n'
+             '__CPROVER_ensures(%s)\n' % UCI_TXT)
+    STR_IS = '(str->n == (size_t)spec_uci_len(self->_current_side, G_M)' + ''.join(
+        ' && str->s[%d] == spec_uci_char(self->_current_side, G_M, %d)' % (i, i) for i in range(5)) + ')'
+    c_parse = ('__CPROVER_requires(spec_uci_movable(self->_board, self->_current_side, G_M) && %s)\n__CPROVER_assigns()\n'
+               '__CPROVER_ensures(__CPROVER_return_value == G_M)\n' % STR_IS)
+    ghost = 'uint32_t G_M;\n'
+    wit = 'struct Position W_P; uint32_t W_m;\n'
+    h_uci = PRE + wit + 'struct Position nondet_Position(void); uint32_t nondet_u32(void);\nvoid h_uci(void) { struct Position P = nondet_Position(); uint32_t m = nondet_u32(); W_P = P; W_m = m; Position__uci(&P, m);' + CANARY + ' }\n'
+    out.append(Job('uci/Position__uci', PT, ['Position__uci'], h_uci, 'h_uci', contracts={'Position__uci': c_uci},
+                   enforce='Position__uci', spec=['ucitext.h'], pre_text=ghost, timeout=600,
+                   note='printed text == UCI long algebraic text of the move (all moves of legal shape, both colours)',
+                   replay={'needs': ['W_m'], 'body': '''
+  uint32_t side = (uint32_t)P.color(); std::string want;
+  for (int i = 0; i < spec_uci_len(side, (uint32_t)W_m); i++) want += spec_uci_char(side, (uint32_t)W_m, i);
+  std::string got = P.uci((Move)W_m);
+  printf("move 0x%x side %u: engine uci() = '%s', UCI text = '%s'\\n", (unsigned)W_m, side, got.c_str(), want.c_str());
+  if (got != want) printf("CONFIRMED uci() prints '%s' for move 0x%x, expected '%s'\\n", got.c_str(), (unsigned)W_m, want.c_str()); else printf("NOT-REPRODUCED\\n");
+'''}))
+    h_parse = PRE + wit + ('struct Position nondet_Position(void); uint32_t nondet_u32(void); struct verif_string nondet_str(void);\n'
+                     'void h_parse(void) { struct Position P = nondet_Position(); struct verif_string s = nondet_str(); G_M = nondet_u32(); W_P = P; Position__parse_uci(&P, &s);' + CANARY + ' }\n')
+    out.append(Job('uci/Position__parse_uci', PT, ['Position__parse_uci'], h_parse, 'h_parse', contracts={'Position__parse_uci': c_parse},
+                   enforce='Position__parse_uci', spec=['ucitext.h'], pre_text=ghost, timeout=600,
+                   note='parsing the UCI text of ghost move G_M in the same position returns G_M; no exception; string indices within size',
+                   replay={'needs': ['G_M'], 'body': '''
+  uint32_t side = (uint32_t)P.color(); std::string txt;
+  for (int i = 0; i < spec_uci_len(side, (uint32_t)G_M); i++) txt += spec_uci_char(side, (uint32_t)G_M, i);
+  Move got = 0; bool threw = false;
+  try { got = P.parse_uci(txt); } catch (...) { threw = true; }
+  printf("fen %s text '%s' (move 0x%x): parse_uci -> 0x%x%s\\n", P.fen().c_str(), txt.c_str(), (unsigned)G_M, (unsigned)got, threw ? " (exception)" : "");
+  if (threw || got != (Move)G_M) printf("CONFIRMED parse_uci('%s') = 0x%x, expected 0x%x\\n", txt.c_str(), (unsigned)got, (unsigned)G_M); else printf("NOT-REPRODUCED\\n");
+'''}))
+    h_rt = PRE + ('struct Position nondet_Position(void); uint32_t nondet_u32(void);\n'
+                  'void h_rt(void) { struct Position P = nondet_Position(); uint32_t m = nondet_u32();\n'
+                  '  __CPROVER_assume(spec_uci_movable(P._board, P._current_side, m)); G_M = m;\n'
+                  '  struct verif_string s = Position__uci(&P, m);\n  uint32_t back = Position__parse_uci(&P, &s);\n'
+                  '  __CPROVER_assert(back == m, "parse_uci(uci(m)) == m in the same position");' + CANARY + ' }\n')
+    out.append(Job('lemma/uci_roundtrip', PT, ['Position__uci', 'Position__parse_uci'], h_rt, 'h_rt',
+                   contracts={'Position__uci': c_uci, 'Position__parse_uci': c_parse}, nobody=['Position__uci', 'Position__parse_uci'],
+                   replace=['Position__uci', 'Position__parse_uci'], spec=['ucitext.h'], pre_text=ghost, timeout=600,
+                   note='text round trip as a lemma over the two contracts'))
     return out
